@@ -11,7 +11,7 @@ if mid == "--revert":   # tools/mutant.py --revert <fix-commit> <CNN> [tier]: un
     revert = sys.argv[2]; sys.argv = sys.argv[1:]; mid = "revert-" + revert
     m = {"property": None, "edits": [], "negative_control": False}
 elif mid == "--patch":  # tools/mutant.py --patch <file.diff> <CNN> [tier]: apply a seeded change
-    revert = None; patch = sys.argv[2]; sys.argv = sys.argv[1:]; mid = "patch-" + os.path.basename(os.path.dirname(patch) or patch)
+    revert = None; patch = os.path.abspath(sys.argv[2]); sys.argv = sys.argv[1:]; mid = "patch-" + os.path.basename(os.path.dirname(patch) or patch)
     m = {"property": None, "edits": [], "negative_control": False, "patch": patch}
 else:
     m = muts[mid]
